@@ -39,4 +39,16 @@ theorem indicesOk_domain {rate : Opus.SilkSyms.Rate} {nb cc ps : Nat} {pl : Int}
     · exact (h.gainsHead g (by rw [hgs]; rfl)).1
     · have := h.gainsTail g (by rw [hgs]; exact h'); omega
 
+/-- The contour symbol alphabet of C03 (`psDec->pitch_contour_iCDF`) has exactly as many symbols as the
+    contour codebook `silk_decode_pitch` selects for the same rate and sub-frame count, so a decoded
+    contour index satisfies the hypothesis of `decodePitch_range`. -/
+def contourOk (rate : Opus.SilkSyms.Rate) (nb : Nat) : Bool :=
+  match pitchCodebook (rate.kHz : Int) nb with
+  | .ok (_, cbk) => (Opus.SilkSyms.pitchContour rate nb).length == cbk
+  | _ => false
+
+theorem contour_domain (rate : Opus.SilkSyms.Rate) (nb : Nat) (hnb : nb = 2 ∨ nb = 4) :
+    contourOk rate nb = true := by
+  rcases hnb with rfl | rfl <;> cases rate <;> decide +kernel
+
 end Opus.SilkParams
